@@ -42,7 +42,7 @@ def build_scenario(rng: random.Random, mode: str):
         npools, cpu, ram = rng.choice([1, 2]), rng.choice([3, 4, 8]), Q * rng.choice([32, 64, 40])
         oc, multi = rng.random() < 0.3, True
     else:
-        npools = rng.choice([1, 2, 3])
+        npools = rng.choice([1, 2, 3, 3, 12])          # two-digit pool numbers too
         cpu = rng.choice([1, 2, 4, 8])
         ram = Q * rng.choice([2, 8, 16, 32, 64, 10])
         oc = rng.random() < 0.5
